@@ -32,7 +32,10 @@ func scalarsLine(ks []*big.Int) string {
 func (c *Ctx) scalarMultiset(n int) []*big.Int {
 	ks := []*big.Int{}
 	for len(ks) < n {
-		switch c.intn(6) {
+		switch c.intn(7) {
+		case 6:
+			pool := limbScalars()
+			ks = append(ks, pool[c.intn(len(pool))])
 		case 0:
 			ks = append(ks, big.NewInt(int64(1+c.intn(3))))
 		case 1:
@@ -50,6 +53,35 @@ func (c *Ctx) scalarMultiset(n int) []*big.Int {
 	return ks
 }
 
+// limbScalars: scalars whose 64-bit limbs sit on carry boundaries (all-ones limbs, single high bits, values next to
+// r and to powers of 2^64): sums of these exercise every carry chain of a multi-limb adder
+func limbScalars() []*big.Int {
+	one := big.NewInt(1)
+	var out []*big.Int
+	add := func(v *big.Int) {
+		v = new(big.Int).Mod(v, blsR)
+		if v.Sign() != 0 {
+			out = append(out, v)
+		}
+	}
+	for j := 1; j <= 3; j++ {
+		p := new(big.Int).Lsh(one, uint(64*j))
+		add(new(big.Int).Sub(p, one))
+		add(p)
+		add(new(big.Int).Add(p, one))
+		add(new(big.Int).Sub(p, new(big.Int).Lsh(one, uint(64*(j-1)))))
+		add(new(big.Int).Sub(blsR, p))
+		add(new(big.Int).Sub(blsR, new(big.Int).Sub(p, one)))
+	}
+	add(one)
+	add(new(big.Int).Lsh(one, 63))
+	add(new(big.Int).Sub(new(big.Int).Lsh(one, 127), one))
+	add(new(big.Int).Sub(new(big.Int).Lsh(one, 254), one))
+	add(new(big.Int).Sub(blsR, one))
+	add(new(big.Int).Rsh(new(big.Int).Add(blsR, one), 1))
+	return out
+}
+
 func pkEnc(pk crypto.PublicKey, err error) string {
 	if err != nil {
 		return "err " + errClass(err)
@@ -63,6 +95,50 @@ func genC04(c *Ctx) {
 		n = 1500
 	}
 	h := crypto.NewExpandMsgXOFKMAC128("agg")
+	// private-key aggregation on limb boundaries: every ordered pair of the pool, and sampled triples
+	{
+		pool := limbScalars()
+		aggOf := func(ks []*big.Int) string {
+			return guard(func() string {
+				sks := make([]crypto.PrivateKey, len(ks))
+				for i, k := range ks {
+					sks[i] = skFromInt(k)
+				}
+				agg, err := crypto.AggregateBLSPrivateKeys(sks)
+				if err != nil {
+					return "err " + errClass(err)
+				}
+				return "ok " + hx(agg.Encode())
+			})
+		}
+		for _, a := range pool {
+			for _, b := range pool {
+				ks := []*big.Int{a, b}
+				if new(big.Int).Mod(new(big.Int).Add(a, b), blsR).Sign() == 0 {
+					continue // the zero key is covered by the cancellation cases
+				}
+				c.Case("agg-sk-limb-boundaries", "agg.sk "+scalarsLine(ks), aggOf(ks))
+			}
+		}
+		nTriples := 40
+		if c.thorough() {
+			nTriples = 2000
+		}
+		for i := 0; i < nTriples; i++ {
+			ks := []*big.Int{pool[c.intn(len(pool))], pool[c.intn(len(pool))], pool[c.intn(len(pool))]}
+			if c.intn(2) == 0 {
+				ks = append(ks, c.randScalar())
+			}
+			sum := big.NewInt(0)
+			for _, k := range ks {
+				sum.Add(sum, k)
+			}
+			if sum.Mod(sum, blsR).Sign() == 0 {
+				continue
+			}
+			c.Case("agg-sk-limb-boundaries", "agg.sk "+scalarsLine(ks), aggOf(ks))
+		}
+	}
 	for it := 0; it < n; it++ {
 		size := 1 + c.intn(16)
 		// long lists: sizes around the powers of two a chunked or windowed implementation would use
